@@ -148,7 +148,9 @@ theorem C16_backed_builtins_pool (env : Env) (s : State) (hk : (s.pools.map (·.
   obtain ⟨_, t, l⟩ := BackL.createBuiltins_back s (env.liqHash k.toBytes) hk
   exact C16_backed_of_same (s := s) (s' := createBuiltins s) (Nat.le_refl _) t (l k) hb
 
-/-- creating the builtin pools keeps tokens backed (a new builtin pool records 10^9 nobody-owned liquidity) -/
+/-- creating the builtin pools keeps tokens backed (a new builtin pool records 10^9 nobody-owned liquidity; since
+    the `fix:` for F23 a builtin pool is also created afresh when it recorded no liquidity — then none of its
+    tokens were in circulation, and the recorded liquidity only grows) -/
 theorem C16_backed_builtins (env : Env) (s : State) (hk : (s.pools.map (·.1)).Nodup)
     (hb : ∀ k, Backed env s k) (hnone : ∀ k ∈ [poolMelSym, poolMelErg, poolErgSym], s.pools.get k = none →
       supply s (liqTokenDenom env k) = 0) :
